@@ -156,6 +156,15 @@ CHECKS["C03"] = ("DESIGN.md C03",
     "27 call forms (named, defaults, rest, list/map spread, pipeline, method calls with prototype "
     "chains) with symbolic argument values.")
 
+CHECKS["C12"] = ("DESIGN.md C12",
+    "98 driver programs send sets of strings through every iteration/conversion/spread/destructuring/"
+    "rendering path and the collection library, 36 do the same for maps. The iteration order of every "
+    "host set is a symbolic permutation (NondetSet injected through the loader), the insertion order "
+    "of maps a symbolic permutation; result, output and error must equal those of the canonical "
+    "order for every permutation (sizes 3, thorough 4). Counterexamples are replayed by running the "
+    "program in fresh processes under up to 32 PYTHONHASHSEEDs until two outputs differ. The model "
+    "(any order) over-approximates CPython's actual orders.")
+
 NA = {}
 
 
